@@ -742,6 +742,8 @@ func (c08) Gen(rng *rand.Rand, tier string, emit func(string)) {
 		}
 		emit(fmt.Sprintf("cons %s %s %s %s %s", hx(A), hx(g.quals(la)), hx(B), hx(g.quals(lb)), c08PathStr(g.randPath(la, lb))))
 	}
+	// concurrent use (c08_conc.go); last, so that the cases above keep their PRNG draws
+	c08GenConc(rng, tier, emit)
 }
 
 // witnesses for D12 found on the unpatched code (see notes/patches/C08-*.msg)
@@ -1353,6 +1355,9 @@ func c08ColumnAlone(a, qa, b, qb byte) (q byte, ok bool) {
 }
 
 func (c08) Exec(c string) (string, []Fail) {
+	if strings.HasPrefix(c, "conc ") {
+		return c08ExecConc(c) // c08_conc.go
+	}
 	cs, ok := c08Parse(c)
 	if !ok {
 		caseTrivial = true
